@@ -84,9 +84,9 @@ Proof. constructor; simpl; intros; try discriminate; try contradiction. Qed.
 Ltac inv_s H := inversion H; subst; clear H.
 
 Lemma step_inv c s e s' :
-  Inv c s -> user_move e = false -> swallowed e = false -> step c s e = Some s' -> Inv c s'.
+  Inv c s -> user_move e = false -> step c s e = Some s' -> Inv c s'.
 Proof.
-  intros I UM SW. destruct I as [Irst Ilo Ires Ifirst Iorigin Ierr Isurf Ioor Ipos].
+  intros I UM. destruct I as [Irst Ilo Ires Ifirst Iorigin Ierr Isurf Ioor Ipos].
   destruct e; simpl in *; try discriminate.
   - (* Assigned *) intros H; inv_s H. apply fresh_inv.
   - (* CommittedReq *)
@@ -135,8 +135,9 @@ Proof.
   - (* ListOffsetsResp *)
     destruct (remove_strat s0 (lo s)) as [los|] eqn:ERm; [|discriminate].
     destruct (remove_strat_incl _ _ _ ERm) as (I1 & I2).
-    destruct (is_some (rst s)) eqn:ER; [|discriminate].
-    intros H; inv_s H. unfold set_pos. pose proof (Ilo _ I1) as (RP & RC).
+    destruct (rst s) as [y|] eqn:ER; [|discriminate].
+    destruct (strat_eqb s0 y) eqn:ES; [|discriminate]. apply strat_eqb_eq in ES. subst y.
+    intros H; inv_s H. unfold set_pos. pose proof (Irst _ eq_refl) as (RP & RC).
     constructor; simpl; auto; try (intros; discriminate).
     + intros f Hf. destruct (first s) as [f0|] eqn:EF; [apply Ifirst; congruence|].
       inv_s Hf. unfold first_ok. simpl. split; [|split; [exact RP|reflexivity]].
@@ -180,13 +181,13 @@ Proof.
     destruct (oz_eqb (pos s) (Some p)); [|discriminate]. intros H; inv_s H. constructor; auto.
 Qed.
 
-Definition clean_ev (e : ev) : bool := negb (user_move e) && negb (swallowed e).
+Definition clean_ev (e : ev) : bool := negb (user_move e).
 
 Lemma run_inv c tr : forall s s', Inv c s -> forallb clean_ev tr = true -> run c s tr = Some s' -> Inv c s'.
 Proof.
   induction tr as [|e tr IH]; simpl; intros s s' I CL H; [inv_s H; exact I|].
   apply andb_true_iff in CL. destruct CL as (C1 & C2). unfold clean_ev in C1.
-  apply andb_true_iff in C1. destruct C1 as (U & S). apply negb_true_iff in U, S.
+  apply negb_true_iff in C1.
   destruct (step c s e) as [s1|] eqn:E; [|discriminate].
   eapply IH; [eapply step_inv; eauto|exact C2|exact H].
 Qed.
@@ -229,12 +230,10 @@ Proof.
   - destruct (negb (Nat.eqb (nwait s) 0) && oz_eqb c0 (eff_committed c) &&
               (if c_group c then looking s else true)); [|discriminate].
     intros H; inv_s H. repeat split; assumption.
-  - destruct (c_group c && looking s && negb (Nat.eqb (nwait s) 0)); [|discriminate].
-    intros H; inv_s H. repeat split; assumption.
   - destruct (resolved s) as [|v' rest]; [discriminate|]. destruct (oz_eqb c0 v'); [|discriminate].
     rewrite P. simpl. intros H; inv_s H. repeat split; assumption.
   - rewrite P. discriminate.
-  - destruct (remove_strat s0 (lo s)); [|discriminate]. rewrite R. simpl. discriminate.
+  - destruct (remove_strat s0 (lo s)); [|discriminate]. rewrite R. discriminate.
   - destruct (remove_strat s0 (lo s)); [|discriminate]. rewrite R.
     intros H; inv_s H. repeat split; assumption.
   - destruct (remove_strat s0 (lo s)); [|discriminate]. intros H; inv_s H. repeat split; assumption.
@@ -261,58 +260,52 @@ Proof.
 Qed.
 
 (* ---- seek_to_beginning / seek_to_end ------------------------------------------------------- *)
-(* holds when every ListOffsets in flight at the time of the call asks for the same strategy *)
 Definition seeking (c : cfg) (x : strat) (s : st) : Prop :=
-  (pos s = None /\ rst s = Some x /\ forall y, In y (lo s) -> y = x) \/
+  (pos s = None /\ rst s = Some x) \/
   (exists l h ls, pos s = Some (answer (c_iso c) x l h ls) /\ rst s = None /\
                   origin_ s = Some (OReset x l h ls)).
 
 Lemma step_seeking c x s e s' : seeking c x s -> quiet_ev e = true -> step c s e = Some s' -> seeking c x s'.
 Proof.
   intros SK Q. destruct e; simpl in *; try discriminate.
-  - destruct SK as [(P & R & L)|(l & h & ls & P & R & O)]; rewrite P; [rewrite R|]; discriminate.
+  - destruct SK as [(P & R)|(l & h & ls & P & R & O)]; rewrite P; [rewrite R|]; discriminate.
   - destruct (c_group c && negb (looking s) && negb (Nat.eqb (nwait s) 0)); [|discriminate].
     intros H; inv_s H. exact SK.
   - destruct (looking s); [|discriminate]. intros H; inv_s H. exact SK.
   - destruct (negb (Nat.eqb (nwait s) 0) && oz_eqb c0 (eff_committed c) &&
               (if c_group c then looking s else true)); [|discriminate].
     intros H; inv_s H. exact SK.
-  - destruct (c_group c && looking s && negb (Nat.eqb (nwait s) 0)); [|discriminate].
-    intros H; inv_s H. exact SK.
   - destruct (resolved s) as [|v' rest]; [discriminate|]. destruct (oz_eqb c0 v'); [|discriminate].
-    destruct SK as [(P & R & L)|(l & h & ls & P & R & O)].
+    destruct SK as [(P & R)|(l & h & ls & P & R & O)].
     + rewrite P, R. simpl. intros H; inv_s H. left. repeat split; assumption.
     + rewrite P. simpl. intros H; inv_s H. right. exists l, h, ls. repeat split; assumption.
-  - destruct SK as [(P & R & L)|(l & h & ls & P & R & O)].
-    + rewrite P, R. destruct (strat_eqb s0 x) eqn:E; [|discriminate]. apply strat_eqb_eq in E. subst s0.
-      intros H; inv_s H. left. simpl. repeat split; auto. intros y [<-|I]; auto.
+  - destruct SK as [(P & R)|(l & h & ls & P & R & O)].
+    + rewrite P, R. destruct (strat_eqb s0 x) eqn:E; [|discriminate].
+      intros H; inv_s H. left. simpl. repeat split; auto.
     + rewrite P. discriminate.
   - destruct (remove_strat s0 (lo s)) as [los|] eqn:ERm; [|discriminate].
-    destruct (remove_strat_incl _ _ _ ERm) as (I1 & I2).
-    destruct SK as [(P & R & L)|(l & h & ls & P & R & O)].
-    + rewrite R. simpl. intros H; inv_s H. right. rewrite (L _ I1). exists lstart, hw, lso. repeat split.
-    + rewrite R. simpl. discriminate.
+    destruct SK as [(P & R)|(l & h & ls & P & R & O)].
+    + rewrite R. destruct (strat_eqb s0 x) eqn:E; [|discriminate]. apply strat_eqb_eq in E. subst s0.
+      intros H; inv_s H. right. exists lstart, hw, lso. repeat split.
+    + rewrite R. discriminate.
   - destruct (remove_strat s0 (lo s)) as [los|] eqn:ERm; [|discriminate].
-    destruct (remove_strat_incl _ _ _ ERm) as (I1 & I2).
     destruct (match rst s with None => true | Some y => negb (strat_eqb s0 y) end); [|discriminate].
-    intros H; inv_s H. destruct SK as [(P & R & L)|SK]; [left; simpl; repeat split; auto|right; exact SK].
+    intros H; inv_s H. destruct SK as [(P & R)|SK]; [left; simpl; repeat split; auto|right; exact SK].
   - destruct (remove_strat s0 (lo s)) as [los|] eqn:ERm; [|discriminate].
-    destruct (remove_strat_incl _ _ _ ERm) as (I1 & I2).
-    intros H; inv_s H. destruct SK as [(P & R & L)|SK]; [left; simpl; repeat split; auto|right; exact SK].
+    intros H; inv_s H. destruct SK as [(P & R)|SK]; [left; simpl; repeat split; auto|right; exact SK].
   - destruct (err s) as [k'|]; [|discriminate]. destruct (errk_eqb e k'); [|discriminate].
     intros H; inv_s H. exact SK.
   - destruct (oz_eqb (pos s) (Some p)); [|discriminate]. intros H; inv_s H. exact SK.
 Qed.
 
-Theorem seek_to_precedence c tr1 x tr2 s0 s :
-  run c fresh tr1 = Some s0 -> (forall y, In y (lo s0) -> y = x) ->
-  run c s0 (SeekTo x :: tr2) = Some s -> forallb quiet_ev tr2 = true ->
+Theorem seek_to_precedence c tr1 x tr2 s :
+  run c fresh (tr1 ++ SeekTo x :: tr2) = Some s -> forallb quiet_ev tr2 = true ->
   forall p, pos s = Some p ->
   exists l h ls, origin_ s = Some (OReset x l h ls) /\ p = answer (c_iso c) x l h ls.
 Proof.
-  intros _ L. simpl.
+  rewrite run_app. destruct (run c fresh tr1) as [s0|]; [|discriminate]. simpl.
   assert (seeking c x (mkSt None (Some x) (nwait s0) (resolved s0) (looking s0) (lo s0) None None (first s0)
-                            (oor s0) (surfaced s0))) as S0 by (left; repeat split; exact L).
+                            (oor s0) (surfaced s0))) as S0 by (left; repeat split).
   revert S0. generalize (mkSt None (Some x) (nwait s0) (resolved s0) (looking s0) (lo s0) None None (first s0)
                               (oor s0) (surfaced s0)) as s1.
   induction tr2 as [|e tr2 IH]; simpl; intros s1 S1 H Q p Hp.
@@ -373,9 +366,11 @@ Proof.
 Qed.
 
 Theorem reset_applies_answer c s x l h ls s' : step c s (ListOffsetsResp x l h ls) = Some s' ->
-  pos s' = Some (answer (c_iso c) x l h ls) /\ rst s' = None /\ origin_ s' = Some (OReset x l h ls) /\ In x (lo s).
+  pos s' = Some (answer (c_iso c) x l h ls) /\ rst s' = None /\ origin_ s' = Some (OReset x l h ls) /\
+  rst s = Some x /\ In x (lo s).
 Proof.
   simpl. destruct (remove_strat x (lo s)) as [los|] eqn:E; [|discriminate].
-  destruct (is_some (rst s)); [|discriminate]. intros H; inv_s H. simpl. repeat split.
+  destruct (rst s) as [y|]; [|discriminate]. destruct (strat_eqb x y) eqn:ES; [|discriminate].
+  apply strat_eqb_eq in ES. subst y. intros H; inv_s H. simpl. repeat split.
   exact (proj1 (remove_strat_incl _ _ _ E)).
 Qed.
